@@ -141,11 +141,13 @@ def persistence(res, facts, entries):
     roots = [e.id for e in entries if e.role == "producer" and e.layer in ("generic", "prelude")]
     reach = M.reachable_bodies(facts, roots, g)
     n = 0
+    # fields the payload depends on: `claims` plus whatever build_payload_from_claims reads (a cache field would show up here)
+    relevant = {"claims"} | payload_reads(facts)
     for bid in sorted(reach):
         b = facts.bodies[bid]
         v = M.view(facts, b)
         for w in M.field_writes(v):
-            if not w["adt"].endswith("generic_builder::GenericBuilder"):
+            if not w["adt"].endswith("generic_builder::GenericBuilder") or w["field"] not in relevant:
                 continue
             n += 1
             users = w.get("user_defs", [])
@@ -161,21 +163,7 @@ def persistence(res, facts, entries):
         res.violate("C13.R5", "GenericBuilder::build_payload_from_claims", "anchor missing", "not found")
         return
     v = M.view(facts, b)
-    reads = set()
-    for bi in sorted(v.cfg.reach):
-        for st in v.body["blocks"][bi]["stmts"]:
-            if st["k"] == "assign":
-                for pl in _places(st["rv"]):
-                    for pr in pl["p"]:
-                        if pr["k"] == "field" and pr.get("adt", "").endswith("generic_builder::GenericBuilder"):
-                            reads.add(pr["name"])
-        t = v.body["blocks"][bi]["term"]
-        if t["k"] == "call":
-            for a in t["args"]:
-                if a["k"] in ("copy", "move"):
-                    for pr in a["place"]["p"]:
-                        if pr["k"] == "field" and pr.get("adt", "").endswith("generic_builder::GenericBuilder"):
-                            reads.add(pr["name"])
+    reads = payload_reads(facts)
     ok = reads == {"claims"}
     res.oblige(ok)
     if ok:
@@ -192,6 +180,30 @@ def persistence(res, facts, entries):
         res.inst("C13.R5", "build_payload_from_claims iterates self.claims by shared reference")
     else:
         res.violate("C13.R5", b["id"], "claims not iterated by reference", "expected exactly one self.claims.iter()", file=v.file(), line=b["line"])
+
+
+def payload_reads(facts):
+    """GenericBuilder fields read by build_payload_from_claims"""
+    b = _fpai.find_body(facts, GB + r"build_payload_from_claims$")
+    reads = set()
+    if b is None:
+        return reads
+    v = M.view(facts, b)
+    for bi in sorted(v.cfg.reach):
+        for st in v.body["blocks"][bi]["stmts"]:
+            if st["k"] == "assign":
+                for pl in _places(st["rv"]) + [st["place"]]:
+                    for pr in pl["p"]:
+                        if pr["k"] == "field" and pr.get("adt", "").endswith("generic_builder::GenericBuilder"):
+                            reads.add(pr["name"])
+        t = v.body["blocks"][bi]["term"]
+        if t["k"] == "call":
+            for a in t["args"]:
+                if a["k"] in ("copy", "move"):
+                    for pr in a["place"]["p"]:
+                        if pr["k"] == "field" and pr.get("adt", "").endswith("generic_builder::GenericBuilder"):
+                            reads.add(pr["name"])
+    return reads
 
 
 def _places(rv):
